@@ -283,12 +283,14 @@ Lemma r17_claims_recursion :
   is_err (jwt_decode_jws (all_but 17) (wprims jclaims) default_jws_reg (AKey k_oct) (tok "e30.W10.e30")) ERuntime = true.
 Proof. vm_compute. reflexivity. Qed.
 
-(* 18: epk with "use": [] and "key_ops": [] -> TypeError (unhashable) in validate_dict_key_use_operations *)
-Lemma r18_epk_use_list :
-  is_err (jwe_decrypt_compact (all_but 18)
-            (W (ecdh_header (epk_ec "P-256" [("use", PList []); ("key_ops", PList [])]))) default_jwe_reg (AKey k_ec)
-            (tok "e30..AAAAAAAAAAAAAAAA..")) EType = true.
-Proof. vm_compute. reflexivity. Qed.
+(* 18: JWK with "use": [] and "key_ops": [] -> TypeError (unhashable) in validate_dict_key_use_operations.
+   Function level: since 7fefb53 the validator of "use" (in_choices(.., False) = VChoiceStr in gen/Tables.v)
+   refuses a list before this function is reached through import_key, so the guard is a second line of
+   defence for direct callers of validate_dict_key_use_operations. *)
+Lemma r18_use_list :
+  is_err (validate_use_ops (all_but 18) (D [("use", PList []); ("key_ops", PList [])])) EType = true /\
+  is_err (validate_use_ops all_guards (D [("use", PList []); ("key_ops", PList [])])) EValue = true.
+Proof. vm_compute. auto. Qed.
 
 (* with every guard the same witnesses are rejected with an allowed class *)
 Definition witnesses_fixed : list bool := [
